@@ -36,6 +36,8 @@ func Families(family string, seed int64, count int) []Driver {
 			out = append(out, newWorkload(name, s, workloadOpts{cfg: cfg, nRPC: 1 + rng.Intn(3), volume: i%4 == 0, big: i%9 == 0}))
 		case "meta":
 			out = append(out, newWorkload(name, s, workloadOpts{cfg: cfg, nRPC: 1 + rng.Intn(2), meta: true}))
+		case "utf8":
+			out = append(out, newWorkload(name, s, workloadOpts{cfg: cfg, nRPC: 2 + rng.Intn(2), meta: true, badutf: true}))
 		case "term":
 			d := []string{"fail", "chclose", "ctxend", "stop"}[i%4]
 			if d == "stop" {
